@@ -1475,6 +1475,119 @@ def _r8_verdict(dec, wrapped_ids, parent_ids):
     return ("ok" if rel in ("<=",) else "bad"), text
 
 
+# ================================================================================================
+# R9 a split of the arguments of a sum / product into "constants folded now" and "the rest" is exhaustive
+# ================================================================================================
+
+# sympy predicates that are true for numeric LITERALS only: false for pi, E, EulerGamma (NumberSymbol) and for compound
+# numeric expressions such as sqrt(2)
+LITERAL_ONLY_PREDICATES = {"is_Number", "is_Integer", "is_Float", "is_Rational", "is_NumberSymbol", "is_integer", "is_rational"}
+LITERAL_ONLY_CLASSES = {"Number", "Float", "Integer", "Rational", "int", "float", "complex"}
+COMPLETE_PREDICATES = {"is_number", "is_constant", "is_comparable"}
+_R9_CONTROL = '''
+def control(expr):
+    consts = [arg for arg in expr.args if arg.{pred}]
+    return expr.func(*consts)
+'''
+
+
+def _arg_filters(fnode):
+    """[(node, element name, iterable `E.args`, predicate expr, polarity)] for comprehensions `[a for a in E.args if P(a)]`,
+    `filter(lambda a: P(a), E.args)` and loops `for a in E.args: if P(a): …`."""
+    out = []
+    for n in ast.walk(fnode):
+        if isinstance(n, (ast.ListComp, ast.GeneratorExp, ast.SetComp)) and len(n.generators) == 1:
+            g = n.generators[0]
+            if isinstance(g.iter, ast.Attribute) and g.iter.attr == "args" and isinstance(g.target, ast.Name) and len(g.ifs) == 1:
+                out.append((n, g.target.id, g.iter, g.ifs[0], None))
+        elif isinstance(n, ast.For) and isinstance(n.iter, ast.Attribute) and n.iter.attr == "args" and isinstance(n.target, ast.Name):
+            for st in n.body:
+                if isinstance(st, ast.If):
+                    out.append((st, n.target.id, n.iter, st.test, bool(st.orelse)))
+        elif isinstance(n, ast.Call) and isinstance(n.func, ast.Name) and n.func.id == "filter" and len(n.args) == 2 \
+                and isinstance(n.args[0], ast.Lambda) and isinstance(n.args[1], ast.Attribute) and n.args[1].attr == "args" \
+                and len(n.args[0].args.args) == 1:
+            out.append((n, n.args[0].args.args[0].arg, n.args[1], n.args[0].body, None))
+    return out
+
+
+def _const_predicate(test: ast.AST, elem: str):
+    """('literal'|'complete', text, negated) when the test is a sympy constant predicate of the element; None otherwise."""
+    neg = False
+    while isinstance(test, ast.UnaryOp) and isinstance(test.op, ast.Not):
+        test, neg = test.operand, not neg
+    if isinstance(test, ast.Call) and isinstance(test.func, ast.Attribute) and isinstance(test.func.value, ast.Name) \
+            and test.func.value.id == elem and test.func.attr in COMPLETE_PREDICATES:
+        return "complete", test.func.attr, neg
+    if isinstance(test, ast.Attribute) and isinstance(test.value, ast.Name) and test.value.id == elem:
+        if test.attr in LITERAL_ONLY_PREDICATES:
+            return "literal", test.attr, neg
+        if test.attr in COMPLETE_PREDICATES:
+            return "complete", test.attr, neg
+    if isinstance(test, ast.Call) and isinstance(test.func, ast.Name) and test.func.id == "getattr" and len(test.args) >= 2 \
+            and isinstance(test.args[0], ast.Name) and test.args[0].id == elem and isinstance(test.args[1], ast.Constant):
+        a = test.args[1].value
+        if a in LITERAL_ONLY_PREDICATES:
+            return "literal", a, neg
+        if a in COMPLETE_PREDICATES:
+            return "complete", a, neg
+    if isinstance(test, ast.Call) and isinstance(test.func, ast.Name) and test.func.id == "isinstance" and len(test.args) == 2 \
+            and isinstance(test.args[0], ast.Name) and test.args[0].id == elem:
+        classes = test.args[1].elts if isinstance(test.args[1], ast.Tuple) else [test.args[1]]
+        names = {c.attr if isinstance(c, ast.Attribute) else getattr(c, "id", None) for c in classes}
+        if names and names <= LITERAL_ONLY_CLASSES:
+            return "literal", "isinstance(" + ", ".join(sorted(names)) + ")", neg
+    if not isinstance(test, ast.Call) and not isinstance(test, ast.BoolOp) and not (
+            isinstance(test, ast.Attribute) and not (isinstance(test.value, ast.Name) and test.value.id == elem)):
+        # `not arg.free_symbols`
+        if isinstance(test, ast.Attribute) and test.attr == "free_symbols":
+            return "complete", "not free_symbols", not neg
+    return None
+
+
+def r9_constant_split_of_arguments_is_exhaustive(ctx, rid):
+    """Where the backend splits the arguments of a sympy sum / product into numeric constants that it folds at once and a rest
+    that is supplied at run time, every argument must land in one of the two parts.  The run-time part consists of the node's
+    input symbols; a constant test that is true for numeric literals only (`is_Number`, isinstance(.., Number/Float/Integer))
+    is false for pi, E, EulerGamma and for compound numbers like sqrt(2) — they are no inputs either and silently drop out of
+    the sum / product.  Accepted: a complete test (`is_number`, `is_constant()`, `not free_symbols`), or a literal-only test whose
+    complement over the same `.args` is also taken in the same function."""
+    for pred, want in (("is_Number", "literal"), ("is_number", "complete")):
+        tree = ast.parse(_R9_CONTROL.format(pred=pred))
+        fl = _arg_filters(tree.body[0])
+        if len(fl) != 1 or (_const_predicate(fl[0][3], fl[0][1]) or (None,))[0] != want:
+            raise AnalysisError(f"{rid}: positive control failed — the constant predicate `{pred}` is no longer classified as {want}")
+    n_filters = n = 0
+    for f in ctx.repo.all_functions():
+        if not f.module.rel.startswith("pyrates/backend/"):
+            continue
+        filters = _arg_filters(f.node)
+        n_filters += len(filters)
+        judged = [(x, _const_predicate(x[3], x[1])) for x in filters]
+        judged = [(x, c) for x, c in judged if c is not None]
+        for (node, elem, it, test, has_else), (kind, text, neg) in judged:
+            n += 1
+            st = stmt_of(ctx.cfg(f), node) if hasattr(node, "_parent") else node
+            label = f"constant split `{ast.unparse(test)}` over `{ast.unparse(it)}`"
+            if kind == "complete":
+                ctx.ok(rid, f, st, f"`{text}` is true for every argument without free symbols (numeric literals, pi, E, compound numbers)",
+                       label=label)
+                continue
+            complement = has_else or any(c2[0] == "literal" and c2[1] == text and c2[2] != neg and ast.unparse(x2[2]) == ast.unparse(it)
+                                         for x2, c2 in judged if x2[0] is not node)
+            if complement:
+                ctx.ok(rid, f, st, f"the complement of `{text}` over the same arguments is taken as well: the split is exhaustive", label=label)
+            else:
+                ctx.violation(rid, f, st,
+                              f"`{ast.unparse(node)[:140]}` picks the constants of `{ast.unparse(it)}` by `{text}`, which is true for numeric "
+                              f"literals only; pi, E, EulerGamma (and compound numbers such as sqrt(2)) are neither picked nor inputs of "
+                              f"the node, and nothing in {f.qualname} handles the arguments for which the test is false: they drop out of "
+                              f"the evaluated sum / product (`x + pi` evaluates to `x`)", label=label)
+    ctx.ok(rid, None, None, f"controls: `is_Number` is classified literal-only, `is_number` complete; {n_filters} filters over `.args` in "
+                            f"pyrates/backend/**, {n} of them constant splits", construct="rules/c05.py::_R9_CONTROL", loc="rules/c05.py",
+           nontrivial=False)
+
+
 RULES = [
     ("C05-R1", r4_fresh_name_generator, 6),
     ("C05-R2", r2_generated_names_never_overwrite, 3),
@@ -1484,4 +1597,5 @@ RULES = [
     ("C05-R6", r6_scope_membership_by_path_components, 1),
     ("C05-R7", r7_parsed_expression_is_not_rewritten, 2),
     ("C05-R8", r8_spliced_argument_text_keeps_parentheses, 1),
+    ("C05-R9", r9_constant_split_of_arguments_is_exhaustive, 1),
 ]
